@@ -27,6 +27,7 @@ RULE = ("One evaluation = one seeded execution of 2-3 real clients driven by "
 RULE += (' The words of an interactive code entry may be entered after the wormhole closed or failed under the prompt.')
 RULE += (" A when_wordlist_is_available() Deferred's callback calls back into the library (completions, choose_words or close).")
 RULE += (' A ninth configuration makes both sides dilate the moment the verifier is known, on a reordering server.')
+RULE += (" A third of the paired sessions linger after the first message and lose their server connection once more before closing.")
 RULE += (" In a third of the runs the server may be restarted with a welcome error while sessions are under way (the welcome of every later connection carries an error).")
 LEVEL_TEXT = ("Seeded exploration of the composed client (13 mailbox machines "
               "+ Dilator) for reachable-but-undeclared (state, input) pairs. "
@@ -133,6 +134,12 @@ def grammar(tape, c, code_ops, other, dilate, pairable=True):
             # the moment the first peer message has decrypted
             out.insert(dpos, ("wait_event_or_steps", "verifier",
                               300 + tape.choose(300, "dvw")))
+    if pairable and tape.choose(3, "bounce") == 0:
+        # an established session that lingers: the connection to the server
+        # drops and comes back long after the key was confirmed
+        out += [("wait_event_or_steps", "message", 300),
+                ("wait_steps", 5 + tape.choose(60, "b_w1")), ("bounce",),
+                ("wait_steps", 20 + tape.choose(120, "b_w2"))]
     # close somewhere: mostly late
     style = tape.choose(4, "cstyle")
     if style == 0 and pairable:
@@ -201,6 +208,13 @@ def run_one(seed, tape, opts):
     pairable = variant in ("same",)
     a.script = grammar(tape, a, code_a, "B", dil, pairable)
     b.script = grammar(tape, b, code_b, "A", dil, pairable)
+    def bounce(c):
+        for link in sim.net.links:
+            if link.mode == "message" and link.up and link.owner is c:
+                sim.note("fault.cut")
+                sim.ev("bounce", c.name)
+                sim.net.cut(link)
+    w.extra_ops = dict(w.extra_ops or {}, bounce=bounce)
     kinds = ALL_FAULTS
     if tape.choose(3, "unw") == 0:
         # the operator restarts the server with a welcome error: sessions
